@@ -150,6 +150,9 @@ def cfg_strategy():
         "chunk": st.one_of(st.none(), st.integers(1, 253),
                            st.sampled_from([1, 5, 13, 29])),
         "wtx": st.sampled_from([0, 0, 0, 1, 2]),
+        # the INF byte of the card's S(WTX) request: WTXM 1..59 in b6-b1,
+        # any power level indication in b8-b7
+        "wtxm": st.sampled_from([1, 1, 2, 59, 0x41, 0x81, 0xC2, 0xFB]),
         "max_send": st.sampled_from([290, 290, 64, 40, 20]),
         "max_recv": st.sampled_from([290, 290, 255, 64])}).map(shaped)
 
@@ -216,7 +219,8 @@ def run(case, ctx):
         attrib = shape["attrib"]
         ctx.label("sensb=%d byte" % (12 if shape.get("ext") is None else 13))
     tag_sim = ShapedT4Tag(app, cfg["tech"], fsci, fwi, cfg.get("chunk"),
-                          cfg.get("wtx", 0), ats=ats, attrib_res=attrib)
+                          cfg.get("wtx", 0), wtxm=cfg.get("wtxm", 1),
+                          ats=ats, attrib_res=attrib)
     if shape is not None and cfg["tech"] == "B":
         tag_sim.sensb_shape = shape
     try:
@@ -421,9 +425,9 @@ CONFIGS = [
       "max_send": 290, "max_recv": 290}, [(30, 12), (13, 13)]),
     ({"tech": "B", "fsci": 3, "fwi": 11, "chunk": 29, "wtx": 0,
       "max_send": 40, "max_recv": 64}, [(80, 70)]),
-    ({"tech": "A", "fsci": 4, "fwi": 4, "chunk": 20, "wtx": 1,
+    ({"tech": "A", "fsci": 4, "fwi": 4, "chunk": 20, "wtx": 1, "wtxm": 0x41,
       "max_send": 290, "max_recv": 290}, [(50, 50), (8, 8)]),
-    ({"tech": "B", "fsci": 6, "fwi": 2, "chunk": 40, "wtx": 2,
+    ({"tech": "B", "fsci": 6, "fwi": 2, "chunk": 40, "wtx": 2, "wtxm": 0x82,
       "max_send": 290, "max_recv": 290}, [(100, 90)]),
     ({"tech": "A", "fsci": 7, "fwi": 13, "chunk": None, "wtx": 0,
       "max_send": 290, "max_recv": 290}, [(200, 200)]),
